@@ -15,6 +15,11 @@ Definition tided (w : world) : list (N * handle) := tmr w ++ rdy w.
 
 Definition sleep_of (w : world) (t : N) : option N :=
   match get_task t w with Some tk => tk_sleep tk | None => None end.
+(* handles queued without a timer id (call_soon, I/O) are never expiry callbacks *)
+Definition notexp_b (h : handle) : bool := match h with HExpired _ _ _ => false | _ => true end.
+Definition ne_ready (w : world) : bool :=
+  forallb (fun r => match fst r with None => notexp_b (snd r) | Some _ => true end) (ready w).
+
 (* a finished task is not asleep *)
 Definition done_sleep (w : world) (t : N) : option N :=
   match get_task t w with Some tk => if tk_done tk then tk_sleep tk else None | None => None end.
@@ -41,19 +46,20 @@ Record same (w w' : world) : Prop := mkSame {
   sm_next : next_id w' = next_id w; sm_store : forall st a, inner a (get_store st w') = inner a (get_store st w);
   sm_sleep : forall t, sleep_of w' t = sleep_of w t; sm_coll : forall c, open_coll w' c = open_coll w c;
   sm_colls : map fst (collectors w') = map fst (collectors w);
-  sm_done : forall t, done_sleep w' t = done_sleep w t }.
+  sm_done : forall t, done_sleep w' t = done_sleep w t;
+  sm_ne : ne_ready w' = ne_ready w }.
 
 Lemma same_refl w : same w w. Proof. constructor; reflexivity. Qed.
 Lemma same_trans a b c : same a b -> same b c -> same a c.
 Proof.
-  intros [A1 A2 A3 A4 A5 A6 A7 A8 A9] [B1 B2 B3 B4 B5 B6 B7 B8 B9]. constructor; try congruence; intros; rewrite ?B5, ?B6, ?B7, ?B9; auto.
+  intros [A1 A2 A3 A4 A5 A6 A7 A8 A9 A10] [B1 B2 B3 B4 B5 B6 B7 B8 B9 B10]. constructor; try congruence; intros; rewrite ?B5, ?B6, ?B7, ?B9; auto.
 Qed.
 Lemma same_tided w w' : same w w' -> tided w' = tided w.
-Proof. intros [A1 A2 _ _ _ _ _ _ _]. unfold tided, tmr. rewrite A1, A2. reflexivity. Qed.
+Proof. intros [A1 A2 _ _ _ _ _ _ _ _]. unfold tided, tmr. rewrite A1, A2. reflexivity. Qed.
 
 Lemma same_G X w w' : same w w' -> GP X w -> GP X w'.
 Proof.
-  intros Hs [H1 H2 H3 H4 H5 H6 H7 H8 H9]. pose proof (same_tided _ _ Hs) as Ht. destruct Hs as [A1 A2 A3 A4 A5 A6 A7 A8 A9].
+  intros Hs [H1 H2 H3 H4 H5 H6 H7 H8 H9]. pose proof (same_tided _ _ Hs) as Ht. destruct Hs as [A1 A2 A3 A4 A5 A6 A7 A8 A9 A10].
   constructor; rewrite ?Ht, ?A3, ?A4; try assumption.
   - intros st a k tid. rewrite A5. apply H3.
   - intros st a. rewrite A5. apply H4.
@@ -99,12 +105,22 @@ Lemma n_set_now s : neutral (set_now s). Proof. intros w. triv_same. Qed.
 Lemma rdy_app (l1 l2 : list (option N * handle)) w :
   rdy (set_ready (l1 ++ l2) w) = rdy (set_ready l1 w) ++ rdy (set_ready l2 w).
 Proof. unfold rdy. cbn [ready set_ready]. apply flat_map_app. Qed.
-Lemma n_call_soon h : neutral (call_soon h).
+Lemma n_call_soon h : notexp_b h = true -> neutral (call_soon h).
 Proof.
-  intros w. constructor; try reflexivity. unfold call_soon, rdy. cbn [ready set_ready].
-  rewrite flat_map_app. cbn. rewrite app_nil_r. reflexivity.
+  intros Hn w. constructor; try reflexivity.
+  - unfold call_soon, rdy. cbn [ready set_ready]. rewrite flat_map_app. cbn. rewrite app_nil_r. reflexivity.
+  - unfold call_soon, ne_ready. cbn [ready set_ready]. rewrite forallb_app. cbn. rewrite Hn, !andb_true_r. reflexivity.
 Qed.
 Lemma n_id : neutral (fun w => w). Proof. intros w. apply same_refl. Qed.
+
+(* for the invariant G alone any handle may be queued *)
+Lemma keeps_call_soon_any h : forall X w, GP X w -> GP X (call_soon h w).
+Proof.
+  intros X w [H1 H2 H3 H4 H5 H6 H7 H8 H9].
+  assert (Ht : tided (call_soon h w) = tided w).
+  { unfold tided, tmr, rdy, call_soon. cbn [ready set_ready timers]. rewrite flat_map_app. cbn. rewrite app_nil_r. reflexivity. }
+  constructor; rewrite ?Ht; assumption.
+Qed.
 
 Lemma n_draw lo hi : neutral (fun w => snd (draw lo hi w)).
 Proof. intros w. unfold draw. destruct (draws w); cbn [snd]; [apply same_refl|apply n_set_draws]. Qed.
@@ -282,13 +298,13 @@ Proof. intros w. apply n_send_sd. Qed.
 Lemma n_subscribe_eventgroup g ep : neutral (subscribe_eventgroup g ep).
 Proof.
   intros w. unfold subscribe_eventgroup. destruct (sub_alive _).
-  - eapply same_trans; [apply n_set_sub_entries|apply n_call_soon].
+  - eapply same_trans; [apply n_set_sub_entries|apply n_call_soon; reflexivity].
   - apply n_set_sub_entries.
 Qed.
 Lemma n_stop_subscribe_eventgroup g ep b : neutral (stop_subscribe_eventgroup g ep b).
 Proof.
   intros w. unfold stop_subscribe_eventgroup. destruct (remove_first _ _ _); [|apply same_refl].
-  destruct b; [eapply same_trans; [apply n_set_sub_entries|apply n_call_soon]|apply n_set_sub_entries].
+  destruct b; [eapply same_trans; [apply n_set_sub_entries|apply n_call_soon; reflexivity]|apply n_set_sub_entries].
 Qed.
 Lemma n_listener_offered l s a : neutral (listener_offered l s a).
 Proof.
@@ -352,7 +368,7 @@ Proof.
   eapply same_trans; [apply n_set_watch_all|]. apply n_found_iter. intros s a. apply n_listener_stopped.
 Qed.
 Lemma n_connection_lost : neutral connection_lost.
-Proof. intros w. unfold connection_lost. eapply same_trans; [|apply n_call_soon]. eapply same_trans; [|apply n_call_soon]. apply n_call_soon. Qed.
+Proof. intros w. unfold connection_lost. eapply same_trans; [|apply n_call_soon; reflexivity]. eapply same_trans; [|apply n_call_soon; reflexivity]. apply n_call_soon; reflexivity. Qed.
 
 (* ------------------------------------------------------------------ the TimedStore operations *)
 Lemma put_store_tided st s w : tided (put_store st s w) = tided w.
@@ -594,7 +610,7 @@ Qed.
 
 Lemma keeps_new_task k : keeps (fun w => snd (new_task k w)).
 Proof.
-  intros X w Hg. unfold new_task. cbn [snd]. eapply same_G; [apply n_call_soon|].
+  intros X w Hg. unfold new_task. cbn [snd]. eapply same_G; [apply n_call_soon; reflexivity|].
   eapply GP_weaken; [exact Hg|reflexivity|reflexivity|cbn; lia|reflexivity| | | |].
   - intros t tid. unfold sleep_of, get_task. cbn [tasks set_tasks set_next_id]. rewrite aget_snoc_N.
     destruct (aget N.eqb t (tasks w)); [auto|]. destruct (t =? _); cbn; discriminate.
@@ -612,7 +628,7 @@ Qed.
 Lemma keeps_task_sleep t k d pc i : keeps (task_sleep t k d pc i).
 Proof.
   intros X w Hg. unfold task_sleep. destruct (d =? 0).
-  - eapply same_G; [apply n_call_soon|]. apply keeps_put_task; [exact Hg|]. cbn. discriminate.
+  - eapply same_G; [apply n_call_soon; reflexivity|]. apply keeps_put_task; [exact Hg|]. cbn. discriminate.
   - destruct (call_later d (HSleepDone t) w) as [tid w1] eqn:E.
     assert (Hw1 : w1 = snd (call_later d (HSleepDone t) w)) by (rewrite E; reflexivity).
     assert (Ht : tid = next_id w) by (destruct (call_later_frame d (HSleepDone t) w) as (_&_&_&_&_&_&_&_&F9); rewrite E in F9; exact F9).
@@ -630,7 +646,7 @@ Proof.
   destruct (tk_sleep tk) as [tid|] eqn:Es; [|exact Hg1].
   assert (Hsl : sleep_of w t = Some tid) by (unfold sleep_of; rewrite Et; exact Es).
   destruct (g_sleep _ _ Hg _ _ Hsl) as [Hh0 _].
-  eapply same_G; [apply n_call_soon|]. apply keeps_cancel; [exact Hg1| | | |].
+  eapply same_G; [apply n_call_soon; reflexivity|]. apply keeps_cancel; [exact Hg1| | | |].
   - apply (g_fresh _ _ Hg) in Hh0. exact Hh0.
   - intros st a k Hin. destruct (g_store _ _ Hg1 _ _ _ _ Hin) as [Hh _].
     eapply kind_clash_sleep; [apply (g_nodup _ _ Hg)|exact Hh|exact Hh0].
@@ -645,7 +661,7 @@ Qed.
 Lemma keeps_sleep_done t : keeps (sleep_done t).
 Proof.
   intros X w Hg. unfold sleep_done. destruct (get_task t w) as [tk|]; [|exact Hg]. destruct (tk_done tk); [exact Hg|].
-  eapply same_G; [apply n_call_soon|]. apply keeps_put_task; [exact Hg|cbn; discriminate].
+  eapply same_G; [apply n_call_soon; reflexivity|]. apply keeps_put_task; [exact Hg|cbn; discriminate].
 Qed.
 
 (* ------------------------------------------------------------------ send collectors *)
@@ -725,7 +741,7 @@ Proof.
   { unfold w2. destruct (sub_task w1); [|exact Hg1]. eapply same_G; [apply n_set_sub_task|]. apply keeps_cancel_task. exact Hg1. }
   destruct b; [|exact Hg2].
   apply (keeps_fold (fun acc p => call_soon (HSendStopSub (fst p) (snd p)) acc)); [|exact Hg2].
-  intros p. apply neutral_keeps. apply n_call_soon.
+  intros p. apply neutral_keeps. apply n_call_soon. reflexivity.
 Qed.
 
 Lemma keeps_subscribe_round t : keeps (subscribe_round t).
@@ -865,7 +881,7 @@ Proof.
     apply (keeps_fold (fun acc i => snd (call_later d (HAnswerFind i a) acc))); [|eapply same_G; eauto].
     intros i. apply keeps_call_later.
   - apply (keeps_fold (fun acc i => call_soon (HAnswerFind i a) acc)); [|exact Hg].
-    intros i. apply neutral_keeps, n_call_soon.
+    intros i. apply neutral_keeps, n_call_soon. reflexivity.
 Qed.
 
 Lemma keeps_answer_find i a : keeps (answer_find i a).
@@ -938,7 +954,7 @@ Proof.
      else if e_type e =? ET_FindService then announcer_handle_findservice e a mc acc
      else if e_type e =? ET_Subscribe then (if mc then acc else announcer_handle_subscribe e a acc)
      else acc)); [|exact Hg].
-  intros e X' w' Hg'. destruct (e_type e =? ET_OfferService); [eapply same_G; [apply n_call_soon|exact Hg']|].
+  intros e X' w' Hg'. destruct (e_type e =? ET_OfferService); [eapply same_G; [apply n_call_soon; reflexivity|exact Hg']|].
   destruct (e_type e =? ET_SubscribeAck); [exact Hg'|].
   destruct (e_type e =? ET_FindService); [apply keeps_announcer_handle_findservice; exact Hg'|].
   destruct (e_type e =? ET_Subscribe); [|exact Hg']. destruct mc; [exact Hg'|apply keeps_announcer_handle_subscribe; exact Hg'].
@@ -946,7 +962,7 @@ Qed.
 
 Lemma keeps_reboot_detected a : keeps (reboot_detected a).
 Proof.
-  intros X w Hg. unfold reboot_detected. eapply same_G; [apply n_call_soon|]. apply keeps_announcer_reboot_detected. exact Hg.
+  intros X w Hg. unfold reboot_detected. eapply same_G; [apply n_call_soon; reflexivity|]. apply keeps_announcer_reboot_detected. exact Hg.
 Qed.
 
 Lemma keeps_message_received m a mc : keeps (message_received m a mc).
@@ -1084,6 +1100,9 @@ Proof.
     + rewrite get_put_missing by exact Hh. apply aget_none_no_equiv. exact E.
 Qed.
 
+Lemma same_G_weak X w r : tided (set_ready r w) = tided w -> GP X w -> GP X (set_ready r w).
+Proof. intros Ht [H1 H2 H3 H4 H5 H6 H7 H8 H9]. constructor; rewrite ?Ht; assumption. Qed.
+
 Theorem G_lstep1 w : G w -> G (lstep1 w).
 Proof.
   intros Hg. unfold lstep1. destruct (ready w) as [|[[tid|] h] r] eqn:Hr; [exact Hg| |].
@@ -1111,8 +1130,8 @@ Proof.
            rewrite (aget_aset_same N.eqb N.eqb_eq). reflexivity.
         -- unfold open_coll. rewrite Eco. reflexivity.
   - (* a handle without timer id (call_soon / I/O): nothing pending disappears *)
-    cbv zeta. apply keeps_exec. eapply same_G; [|exact Hg].
-    constructor; try reflexivity. unfold rdy. cbn [ready set_ready]. rewrite Hr. reflexivity.
+    cbv zeta. apply keeps_exec.
+    apply (same_G_weak _ w); [|exact Hg]. unfold tided, tmr, rdy. cbn [ready set_ready timers]. rewrite Hr. reflexivity.
 Qed.
 
 Lemma G_run_ready : forall n w, G w -> G (run_ready n w).
@@ -1169,18 +1188,43 @@ Proof. induction l as [|x l IH]; cbn; [reflexivity|]. f_equal. exact IH. Qed.
 
 (* one iteration of the loop: arrivals are appended, due timers move to the ready queue (cancelled ones vanish), then
    exactly the queued handles run *)
-Theorem G_iteration arrivals rv w : G w -> G (iteration arrivals rv w).
+(* the state in which the queued handles start to run *)
+Definition iter_pre (arrivals : list handle) (rev_ties : bool) (w : world) : world :=
+  let w1 := fold_left (fun acc h => call_soon h acc) arrivals w in
+  let due := filter (fun t => (fst (fst t) <=? now w1) && negb (is_cancelled (snd (fst t)) w1)) (timers w1) in
+  let rest := filter (fun t => negb (fst (fst t) <=? now w1)) (timers w1) in
+  let due' := sort_by_when (if rev_ties then rev due else due) in
+  set_timers rest (set_ready (ready w1 ++ map (fun t => (Some (snd (fst t)), snd t)) due') w1).
+Lemma iteration_pre arrivals rv w : iteration arrivals rv w = run_ready (length (ready (iter_pre arrivals rv w))) (iter_pre arrivals rv w).
+Proof. reflexivity. Qed.
+
+Lemma iter_pre_sub arrivals rv w : let w1 := fold_left (fun acc h => call_soon h acc) arrivals w in
+  (forall p, In p (tided (iter_pre arrivals rv w)) -> In p (tided w1))
+  /\ cancelled (iter_pre arrivals rv w) = cancelled w1 /\ found (iter_pre arrivals rv w) = found w1 /\ insts (iter_pre arrivals rv w) = insts w1.
 Proof.
-  intros Hg. unfold iteration.
+  cbv zeta. unfold iter_pre. cbv zeta. set (w1 := fold_left (fun acc h => call_soon h acc) arrivals w).
+  repeat split. intros p Hp. unfold tided, tmr, rdy in *. cbn [timers ready set_timers set_ready] in Hp.
+  rewrite flat_map_app, rdy_of_timers in Hp. apply in_app_iff in Hp. apply in_or_app.
+  destruct Hp as [Hp|Hp].
+  - left. apply in_map_iff in Hp. destruct Hp as (t & <- & Ht).
+    apply (in_map (fun t0 : N * N * handle => (snd (fst t0), snd t0))). apply filter_In in Ht. tauto.
+  - apply in_app_iff in Hp. destruct Hp as [Hp|Hp]; [right; exact Hp|left].
+    apply in_map_iff in Hp. destruct Hp as (t & <- & Ht). apply (in_map (fun t0 : N * N * handle => (snd (fst t0), snd t0))).
+    eapply Permutation_in in Ht; [|apply perm_sort]. destruct rv; [apply in_rev in Ht|]; apply filter_In in Ht; tauto.
+Qed.
+
+Theorem G_iter_pre arrivals rv w : G w -> G (iter_pre arrivals rv w).
+Proof.
+  intros Hg. unfold iter_pre.
   set (w1 := fold_left (fun acc h => call_soon h acc) arrivals w).
   assert (Hg1 : G w1).
-  { unfold w1. apply (keeps_fold (fun acc h => call_soon h acc)); [|exact Hg]. intros h. apply neutral_keeps, n_call_soon. }
+  { unfold w1. apply (keeps_fold (fun acc h => call_soon h acc)); [|exact Hg]. intros h X' w' Hg'. apply keeps_call_soon_any. exact Hg'. }
   set (isdue := fun t : N * N * handle => (fst (fst t) <=? now w1) && negb (is_cancelled (snd (fst t)) w1)).
   set (islater := fun t : N * N * handle => negb (fst (fst t) <=? now w1)).
   set (due := filter isdue (timers w1)). set (rest := filter islater (timers w1)).
   set (due' := sort_by_when (if rv then rev due else due)).
   set (w2 := set_timers rest (set_ready (ready w1 ++ map (fun t => (Some (snd (fst t)), snd t)) due') w1)).
-  apply G_run_ready.
+  change (G w2).
   assert (Hpd : Permutation due' due).
   { unfold due'. eapply Permutation_trans; [apply perm_sort|]. destruct rv; [apply Permutation_sym, Permutation_rev|apply Permutation_refl]. }
   pose (tf := fun t : N * N * handle => (snd (fst t), snd t)).
@@ -1214,6 +1258,9 @@ Proof.
   - intros t tid Hi. destruct (H5 _ _ Hi) as [Ha Hb]. split; [|exact Hb]. apply Hkeep; [exact Ha|exact Hb].
   - intros c Hi. destruct (H6 _ Hi) as [Ha Hb]. split; [|exact Hb]. apply Hkeep; [exact Ha|exact Hb].
 Qed.
+
+Theorem G_iteration arrivals rv w : G w -> G (iteration arrivals rv w).
+Proof. intros Hg. rewrite iteration_pre. apply G_run_ready. apply G_iter_pre. exact Hg. Qed.
 
 Theorem G_run : forall fuel events t_end rv w, G w -> G (fst (run fuel events t_end rv w)).
 Proof.
